@@ -43,6 +43,37 @@ pub fn gen_doc(t: &mut Tape, gates: &Gates) -> Doc {
         t.byte();
     }
     let mut doc = Doc { text: lay.text.clone(), lay, lexemes };
+    // a document that ends in the middle of a program (the user is still typing, or has deleted the
+    // tail): cut directly after a lexeme, optionally followed by a comment / blanks and NO final
+    // line break - every lexeme up to the cut is still a token
+    if lt.ratio(1, 5) {
+        let ends: Vec<(usize, usize)> = doc.lay.pieces.iter().enumerate().filter(|(_, p)| p.lexeme.is_some()).map(|(i, p)| (i, p.end)).collect();
+        if ends.len() >= 2 {
+            // prefer a cut right after an END_IF when there is one
+            let end_ifs: Vec<(usize, usize)> = ends.iter().copied().filter(|(i, _)| doc.lay.pieces[*i].lexeme.map(|l| doc.lexemes[l].text.eq_ignore_ascii_case("END_IF")).unwrap_or(false)).collect();
+            let (pi, cut) = if !end_ifs.is_empty() && lt.flag() { end_ifs[lt.below(end_ifs.len())] } else { ends[lt.below(ends.len())] };
+            doc.lay.pieces.truncate(pi + 1);
+            doc.text.truncate(cut);
+            match lt.below(4) {
+                0 => {}
+                1 => doc.text.push_str("  \t"),
+                k => {
+                    let lead = if k == 2 { " " } else { "" };
+                    doc.text.push_str(lead);
+                    let start = doc.text.len();
+                    let line = doc.text.matches('\n').count();
+                    let line_start = doc.text.rfind('\n').map(|p| p + 1).unwrap_or(0);
+                    let c = "(* tail *)";
+                    doc.text.push_str(c);
+                    let colb = start - line_start;
+                    let colc = doc.text[line_start..start].chars().count();
+                    let colu = doc.text[line_start..start].encode_utf16().count();
+                    doc.lay.pieces.push(crate::lexeme::Piece { start, end: start + c.len(), line, col_bytes: colb, col_chars: colc, col_utf16: colu, lexeme: None, trivia: Some(TriviaKind::Comment) });
+                }
+            }
+            doc.lay.text = doc.text.clone();
+        }
+    }
     // an OSCAT description header in front of the document (the closing marker first on its line or
     // not, LF or CRLF inside): the preprocessor blanks the text between the markers, the two markers stay comments
     // and every lexeme after the header keeps its place
